@@ -717,5 +717,82 @@ def rule_radix(ctx):
     return r
 
 
+def rule_stack(ctx):
+    """(seed C06_11) `gather_slices` stacks the summed chunks over the output sliced indices recursively; the axis
+    at which index k is stacked is `output_pos[k] - len(loc)`, where `loc` holds one entry per output index
+    already consumed (each of them removed one axis from the chunk).  That arithmetic is right only if (a) the
+    chunk key has one entry for *every* removed output index — projected ones included — and (b) every
+    recursive step extends `loc` by exactly one entry."""
+    r = RuleResult("C06-STACK", "chunks are stacked at axes counted over every removed output index", 2)
+    tc = tree_class(ctx)
+    f = tc.lookup("gather_slices")
+    C.require(f is not None, "gather_slices not found")
+    la = ctx.r.local_assignments(f)
+    pos = [nm for nm, vs in la.items() if any(isinstance(v, ast.DictComp) and "enumerate" in C.unparse(v) for v in vs)]
+    C.require(len(pos) == 1, "gather_slices: table of output positions not found")
+    pos = pos[0]
+    k = ctx.key(f, "C06-STACK", "key")
+    keys = [v for nm, vs in la.items() for v in vs if isinstance(v, ast.Call) and dotted(v.func) == "tuple" and v.args
+            and isinstance(v.args[0], ast.GeneratorExp) and dotted(v.args[0].generators[0].iter) == pos]
+    if len(keys) != 1:
+        raise AnalysisError("gather_slices: chunk key (tuple over the output positions) not recognised")
+    g = keys[0].args[0].generators[0]
+    if g.ifs:
+        r.violation(k, C.loc(f, keys[0]), f"the chunk key leaves out the output indices failing `{C.unparse(g.ifs[0], 50)}`: the stacking "
+                    f"axis of every later index is computed as position - len(key so far), which then no longer counts all "
+                    f"removed axes (a projected output index before another removed output index shifts it by one)")
+    else:
+        r.ok(k, C.loc(f, keys[0]), "one key entry per removed output index")
+    k = ctx.key(f, "C06-STACK", "recursion")
+    nested = [nf for nf in ctx.p.nested_funcs(f) if any(isinstance(x, ast.Constant) and x.value == "stack" for x in ast.walk(nf.node))]
+    C.require(len(nested) == 1, "gather_slices: recursive stacking function not found")
+    nf = nested[0]
+    params = [a.arg for a in nf.node.args.args]
+    C.require(len(params) == 2, "gather_slices: recursive stacking function does not take (loc, remaining)")
+    locn, remn = params
+    rec = [c for c in ast.walk(nf.node) if isinstance(c, ast.Call) and dotted(c.func) == nf.name]
+    probs = []
+    for c in rec:
+        a0 = c.args[0] if c.args else None
+        ext = isinstance(a0, ast.BinOp) and isinstance(a0.op, ast.Add) and dotted(a0.left) == locn and \
+            isinstance(a0.right, ast.Tuple) and len(a0.right.elts) == 1
+        adv = len(c.args) > 1 and C.unparse(c.args[1]).replace(" ", "") == f"{remn}[1:]"
+        if adv and not ext:
+            probs.append(f"`{C.unparse(c, 60)}` consumes an output index without extending `{locn}` by one entry")
+        if ext and not adv:
+            probs.append(f"`{C.unparse(c, 60)}` extends `{locn}` without consuming an index")
+    ax = [n for n in walk_local(nf.node) if isinstance(n, ast.BinOp) and isinstance(n.op, ast.Sub)
+          and C.unparse(n.right).replace(" ", "") == f"len({locn})" and pos in C.unparse(n.left)]
+    if not ax:
+        probs.append(f"the stacking axis is not `{pos}[index] - len({locn})`")
+    if not rec:
+        probs.append("no recursive step found")
+    if probs:
+        r.violation(k, nf.loc, "; ".join(probs))
+    else:
+        r.ok(k, nf.loc, f"every step consumes one index and extends `{locn}` by one; axis = position - len({locn})")
+    return r
+
+
+def rule_exprkey(ctx):
+    """Shared with C13-WHITELIST / C13-KEYINJ (seed C06_12): through the functional interface a sliced or projected
+    tree is executed by a *cached* expression; the key must tell two trees apart that differ in which value an
+    index is projected on (or in whether it is sliced at all) — only value types with a value-preserving
+    preparer may be cached."""
+    from .c13 import rule_whitelist, rule_keyinj
+
+    r = C.reuse_rule(ctx, rule_whitelist, "C13-WHITELIST", "C06-EXPRKEY",
+                     "cached expressions are keyed by everything that distinguishes slices", lambda i: True, 1)
+    for i in rule_keyinj(ctx).instances:
+        if "preparer" not in i.construct:
+            continue
+        c = i.construct.replace("C13-KEYINJ", "C06-EXPRKEY")
+        if i.verdict == "violation":
+            r.violation(c, i.loc, i.reason, **i.detail)
+        else:
+            r.ok(c, i.loc, i.reason)
+    return r
+
+
 RULES = [rule_order, rule_pair, rule_multpair, rule_apply, rule_chunkkey, rule_combine, rule_copy, rule_cover, rule_freshchunk,
-         rule_radix]
+         rule_radix, rule_stack, rule_exprkey]
